@@ -1017,7 +1017,10 @@ def translate_units(util_src, writer_src, api_src=None, core_src=None):
         fd = find_def(ut, "metadata_from_many")
         rels = []
         for n in ast.walk(fd):
-            if isinstance(n, ast.Assign) and len(n.targets) == 1 and ast.unparse(n.targets[0]) == "rg.columns[0].file_path":
+            # the fast path writes `<chunk>.file_path = <f>[len(basepath):].lstrip("/")` (on every chunk since fix 04ef417, on
+            # rg.columns[0] before); the legacy path's assignments do not slice by len(basepath)
+            if isinstance(n, ast.Assign) and len(n.targets) == 1 and isinstance(n.targets[0], ast.Attribute) and n.targets[0].attr == "file_path" \
+                    and "len(basepath)" in ast.unparse(n.value):
                 if not (isinstance(n.value, ast.Call) and isinstance(n.value.func, ast.Attribute) and n.value.func.attr == "lstrip"):
                     _bad(n, "first-chunk path of the fast path that is not of the form f[len(basepath):].lstrip('/')")
                 names = sorted({x.id for x in ast.walk(n.value) if isinstance(x, ast.Name)} - {"len", "basepath"})
